@@ -36,6 +36,18 @@ KINDS = {
     ("xeval_4", "AAn_"): ("eval4", None), ("xeval_4_singular", "AAni_"): ("eval4", [0]),
     ("xeval_4_singular", "__ni_"): ("read", [1]),
     ("xisog_2", "__i"): ("isog2", None),
+    # theta chains (arrays: points1/2, Q1/2, steps); with array ids every index is passed as (array id, index)
+    ("copy_jac_point", "i_"): ("copyIn", None), ("copy_jac_point", "_i"): ("read", None),
+    ("double_couple_jac_point_iter", "in_i"): ("dblIterP", None),
+    ("gluing_eval_basis", "iiii__"): ("glueEval", None),
+    ("double_iter", "i_in"): ("dblIter", None),
+    ("assign", "_i"): ("loadR", None),
+    ("theta_isogeny_comput", "i___nn"): ("step", None),
+    ("theta_isogeny_comput4", "i___nn"): ("step4", None),
+    ("theta_isogeny_comput2", "i___nn"): ("step2", None),
+    ("theta_isogeny_eval", "iii"): ("evalStep", None),
+    ("theta_isogeny_eval", "_i_"): ("evalR", None),
+    ("splitting_comput", "_i"): ("split", None),
 }
 
 
@@ -260,6 +272,9 @@ class Ctx:
         self.nloop = 0
         self.noracle = 0
         self.order = []                            # field order
+        self.array_ids = None                      # name -> id: when set, every tracked index is passed as (id, index)
+        self.field_arrays = {}                     # `x->steps[i]`: field name -> tracked array name
+        self.returned = False
 
     # ---- int expressions: returns (binds, pure, ctype); binds = [(name, except_expr)]
     def fresh(self, binds):
@@ -409,7 +424,12 @@ class Ctx:
             return e[1], None
         if e[0] == "idx" and e[1][0] == "var" and e[1][1] in self.tracked:
             return e[1][1], e[2]
+        if e[0] == "idx" and e[1][0] == "field" and e[1][2] in self.field_arrays:
+            return self.field_arrays[e[1][2]], e[2]
         return None
+
+    def idx_args(self, arr, v):
+        return [str(self.array_ids[arr]), v] if self.array_ids is not None else [v]
 
     def call(self, e):
         name = e[1][1] if e[1][0] == "var" else None
@@ -427,7 +447,7 @@ class Ctx:
                 if tb[1] is None:
                     pat += tb[0][0].upper() if False else "A"
                 else:
-                    v, _ = self.ie(tb[1], binds); pat += "i"; args.append(v)
+                    v, _ = self.ie(tb[1], binds); pat += "i"; args += self.idx_args(tb[0], v)
             elif self.is_int_expr(a):
                 v, _ = self.ie(a, binds); pat += "n"; args.append(v)
             else:
@@ -445,6 +465,12 @@ class Ctx:
         return '{ s with obs := O.ev s.obs EvKind.%s [%s] } /- %s/%s -/' % (kind, ", ".join(args), name, pat)
 
     def stmts(self, st, out):
+        n0, was = len(out), self.returned
+        self._stmts(st, out)
+        if was and len(out) > n0:
+            raise TranslateError("chainskel: %s: integer / tracked statements after an early `return` are not in the subset" % self.fname)
+
+    def _stmts(self, st, out):
         k = st[0]
         if k == "block":
             for x in st[1]:
@@ -458,14 +484,24 @@ class Ctx:
                         self.iarr.append(name); self.order.append((name, "arr"))
                         out.append('(fun s => %s)' % self.wrap(binds, '(if 0 < %s then { s with %s := IArr.new %s } else s.fail (.vla "%s" %s))' % (v, name, v, name, v)))
                     else:
-                        self.vars[name] = INT_TYPES[ty]; self.order.append((name, "var"))
+                        if name not in self.vars:
+                            self.vars[name] = INT_TYPES[ty]; self.order.append((name, "var"))
                         if init is not None:
-                            out.append(self.assign(("var", name), "=", init))
+                            if init[0] == "call" and not self.is_int_expr(init):
+                                c = self.call(init)
+                                if c:
+                                    out.append(c)
+                                k_ = self.noracle; self.noracle += 1
+                                out.append("(fun s => { s with %s := b2i (oracle %d) })" % (name, k_))
+                            else:
+                                out.append(self.assign(("var", name), "=", init))
                 else:
                     if size is not None:                  # VLA of a non-integer type: tracked array
                         binds = []; v, _ = self.ie(size, binds)
                         self.tracked.add(name)
-                        out.append('(fun s => %s)' % self.wrap(binds, self.event("vla", "", [v])))
+                        if self.array_ids is not None and name not in self.array_ids:
+                            raise TranslateError("chainskel: %s: VLA %s of a non-integer type is not a known tracked array" % (self.fname, name))
+                        out.append('(fun s => %s)' % self.wrap(binds, self.event("vla", "", self.idx_args(name, v))))
                     # other opaque locals: nothing
         elif k == "expr":
             e = st[1]
@@ -479,7 +515,7 @@ class Ctx:
                     for side in (lhs, e[3]):
                         tb = self.tracked_base(side)
                         if tb and tb[1] is not None:
-                            v, _ = self.ie(tb[1], binds); args.append(v); pat += "i"
+                            v, _ = self.ie(tb[1], binds); args += self.idx_args(tb[0], v); pat += "i"
                         else:
                             pat += "_"
                     out.append("(fun s => %s)" % self.wrap(binds, self.event("assign", pat, args)))
@@ -529,7 +565,7 @@ class Ctx:
                        "      (fun s => match %s_cond %s s with | .ok _ => %s_body %s s | .error f => s.fail f) (fun s => s.fail .fuel) fuel)"
                        % (self.struct, lname, self.args(), lname, self.args(), lname, self.args()))
         elif k == "return":
-            pass
+            self.returned = True
         else:
             raise TranslateError("chainskel: statement kind %s" % k)
 
@@ -558,10 +594,12 @@ class Ctx:
         return "O %s %s oracle fuel %s" % ("T" if self.table2d else "row", " ".join(self.consts), " ".join(self.params))
 
 
-def translate(src, fname, struct, int_params, table2d=None, row_ptr=None, tracked=(), consts=()):
+def translate(src, fname, struct, int_params, table2d=None, row_ptr=None, tracked=(), consts=(), array_ids=None, field_arrays=None):
     _, body = function_body(src, fname)
     ast = Parser(tokenize("{" + body + "}")).block()
     cx = Ctx(fname, struct, int_params, table2d, row_ptr, tracked, consts)
+    cx.array_ids = array_ids
+    cx.field_arrays = field_arrays or {}
     top = []
     cx.stmts(ast, top)
     fields = ["  %s : %s" % (n, "Int" if k == "var" else "IArr") for n, k in cx.order]
@@ -587,6 +625,12 @@ def generate(repo, outdir):
     txt, _ = translate(src, "ec_eval_even_strategy", "EvenSt", [("isog_len", "int"), ("points_len", "int")],
                        table2d="STRATEGY4", consts=[("TORSION_PLUS_EVEN_POWER", "u64")])
     parts.append(txt)
+    src2 = preprocess(open(os.path.join(repo, "src/hd/ref/hdx/theta_isogenies.c")).read())
+    ids = {"points1": 1, "points2": 2, "Q1": 3, "Q2": 4, "steps": 5}
+    for fn, st in (("theta_chain_comput_strategy", "ThetaSt"), ("theta_chain_comput_strategy_faster_no_eval", "ThetaFSt")):
+        txt, _ = translate(src2, fn, st, [("n", "int"), ("eight_above", "int")], row_ptr="strategy",
+                           array_ids=ids, field_arrays={"steps": "steps"})
+        parts.append(txt)
     parts.append("end SqiGen.ChainSkel\n")
     ch = write_if_changed(os.path.join(outdir, "ChainSkel.lean"), "\n".join(parts))
     return ["SqiGen/ChainSkel.lean regenerated"] if ch else []
